@@ -23,3 +23,20 @@ def factLit : Nat → α
   | n + 1 => ofNatLit (n + 1) * factLit n
 
 end Dreye
+
+namespace Dreye
+/-! ### QMC branch bookkeeping (no arithmetic on scalars) -/
+
+/-- the row blocks written by the loop
+    `total = 0; for count in counts: probs[total : total + count] = …; total += count`
+    as `(start, stop)` pairs, starting from `total` -/
+def qmcBlocks : Nat → List Nat → List (Nat × Nat)
+  | _, [] => []
+  | total, c :: cs => (total, total + c) :: qmcBlocks (total + c) cs
+
+/-- `np.repeat(np.arange(i, i + len(counts)), counts)`: the simplex index used for each row -/
+def repeatIdx : Nat → List Nat → List Nat
+  | _, [] => []
+  | i, c :: cs => List.replicate c i ++ repeatIdx (i + 1) cs
+
+end Dreye
